@@ -20,10 +20,12 @@ func init() {
 	generators["c08"] = genC08
 	generators["c08edges"] = genC08edges
 	generators["stopbulk"] = genStopThenBulk
+	generators["panicinwrite"] = genPanicInWrite
 	generators["c09"] = genC09
 	generators["upgradeids"] = genUpgradeIds
 	generators["pipe300"] = genPipe300
 	generators["c07stale"] = genC07stale
+	generators["debugblocked"] = genDebugBlocked
 	generators["upgradestale"] = genUpgradeStale
 	generators["c10"] = genC10
 	generators["c10busy"] = genC10busy
@@ -196,6 +198,25 @@ func genC07stall(g *Gen) {
 
 // C07 (continued): descriptor exhaustion at accept time, with bystanders
 func genC07accept(g *Gen) {
+	// the very first accept fails (nothing has been accepted yet: counters are at their start values)
+	for _, twice := range []bool{false, true} {
+		s := newScen("fixed")
+		s.op("run 1 1")
+		s.op("accepterr") // 0
+		if twice {
+			s.op("accepterr") // 1
+		}
+		s.send(0, s.req("normal", "w"))
+		s.op("connect")
+		last := 1
+		if twice {
+			last = 2
+		}
+		s.send(last, s.req("normal", "w"))
+		s.send(0, s.req("normal", "w"))
+		s.op("stop")
+		s.emit(g)
+	}
 	for _, busy := range []bool{false, true} {
 		for _, twice := range []bool{false, true} {
 			s := newScen("fixed")
@@ -296,6 +317,30 @@ func stopThenBulk(g *Gen, nconn int, double bool) {
 func genStopThenBulk(g *Gen) {
 	stopThenBulk(g, 1, false)
 	stopThenBulk(g, 3, true)
+}
+
+// a handler panics INSIDE ResponseWriter.Write (its response cannot be encoded): recovered like
+// any other panic, and nothing of the connection stays locked - later handlers write, the
+// connection ends and is reported as usual
+func genPanicInWrite(g *Gen) {
+	for _, ending := range []string{"close", "unbind", "stop"} {
+		s := newScen("fixed")
+		s.op("run 1 1")
+		s.op("connect")
+		s.op("connect")
+		s.send(0, s.req("normal", "pw"))
+		s.send(0, s.req("normal", "w"))
+		s.send(1, s.req("normal", "w"))
+		s.send(0, s.req("normal", "w", "w"))
+		switch ending {
+		case "close":
+			s.op("close 0")
+		case "unbind":
+			s.send(0, s.req("unbind"))
+		}
+		s.op("stop")
+		s.emit(g)
+	}
 }
 
 // C08 (continued): the request and the client's EOF arrive together; an upgraded
@@ -417,6 +462,27 @@ func genUpgradeStale(g *Gen) {
 		for c := 1; c <= n; c++ {
 			s.send(c, s.req("normal", "w"))
 		}
+		s.op("stop")
+		s.emit(g)
+	}
+}
+
+// the server logs at Debug level (packet dumps on every read and write); one handler is blocked
+// writing to a client that does not read: later requests of that connection are still
+// dispatched, other connections are served
+func genDebugBlocked(g *Gen) {
+	for _, lvl := range []string{"debug", "trace"} {
+		s := newScen("fixed:loglevel=" + lvl)
+		s.op("run 1 1")
+		s.op("connect")
+		s.op("connect")
+		s.op("stall 0 1")
+		s.send(0, s.req("normal", "W"))
+		s.send(0, s.req("normal", "b7"))
+		s.send(1, s.req("normal", "w"))
+		s.op("connect")
+		s.send(2, s.req("normal", "w"), s.req("normal", "w"))
+		s.op("release 7")
 		s.op("stop")
 		s.emit(g)
 	}
@@ -787,6 +853,28 @@ func genC12(g *Gen) {
 
 // C13: StartTLS handled inline; the handshake sees the client's first byte
 func genC13(g *Gen) {
+	// the StartTLS request reaches its handler through the default route (no route of its own):
+	// it is handled inline all the same - WHICH route serves a request does not decide that
+	for _, delay := range []bool{false, true} {
+		sd := newScen("fixed:dflt=2")
+		sd.op("run 1 1")
+		sd.op("connect")
+		sd.send(0, sd.req("normal", "w"))
+		if delay {
+			// the handler has answered and dawdles before Request.StartTLS: the ClientHello is already
+			// in the socket, and nobody but the handshake may take it
+			sd.send(0, sd.req("starttls", "w", "b6", "hs"))
+			sd.send(0, "hello")
+			sd.op("release 6")
+		} else {
+			sd.send(0, sd.req("starttls", "w", "hs"))
+			sd.send(0, "hello")
+		}
+		sd.send(0, sd.req("normal", "w"), sd.req("normal", "w"))
+		sd.send(0, sd.req("unbind"))
+		sd.op("stop")
+		sd.emit(g)
+	}
 	for _, nsess := range []int{1, 3} {
 		for _, after := range []bool{false, true} {
 			s := newScen("fixed")
@@ -937,6 +1025,15 @@ func genC17(g *Gen) {
 	s.op("run 1 0")
 	s.emit(g)
 	s = newScen("fixed:addr=busy")
+	s.op("run 1 0")
+	s.op("stop")
+	s.emit(g)
+	// the port is in use by ANOTHER gldap server of the same process (whatever socket options
+	// gldap sets are set on both): Run fails, Ready stays false
+	s = newScen("fixed:addr=dup")
+	s.op("run 1 0")
+	s.emit(g)
+	s = newScen("fixed:addr=dup")
 	s.op("run 1 0")
 	s.op("stop")
 	s.emit(g)
